@@ -139,7 +139,7 @@ def validHms (s : List Char) : Bool :=
     | [sec, fr] =>
       (match parseDec h, parseDec m, parseDec sec, parseDec fr with
        | some hh, some mm, some ss, some _ =>
-         h.length ≤ 2 && m.length ≤ 2 && sec.length ≤ 2 && fr.length ≤ 6 && hh < 24 && mm < 60 && ss < 62
+         h.length ≤ 2 && m.length ≤ 2 && sec.length ≤ 2 && fr.length ≤ 6 && hh < 24 && mm < 60 && ss < 60
        | _, _, _, _ => false)
     | _ => false
   | _ => false
